@@ -18,7 +18,7 @@ import fsic
 from fsic.exceptions import NonConvergenceError, SolutionError
 
 MULTI = 99
-KINDS = ['range', 'range0', 'listfalsy', 'listfloat', 'liststr', 'listmixed', 'npint', 'npstr', 'pdindex', 'pdperiodA', 'pdperiodQ', 'pddatetime']
+KINDS = ['range', 'range0', 'listfalsy', 'listfloat', 'liststr', 'listmixed', 'npint', 'npdesc', 'npperm', 'npstr', 'pdindex', 'pdperiodA', 'pdperiodQ', 'pddatetime']
 
 
 class ScriptedError(Exception):
@@ -40,6 +40,10 @@ def make_span(kind, L):
         return [('t', i) if i % 2 else f'q{i}' for i in range(L)]
     if kind == 'npint':
         return np.arange(2000, 2000 + L)
+    if kind == 'npdesc':
+        return np.arange(2000 + L - 1, 1999, -1)  # labels in descending order
+    if kind == 'npperm':
+        return np.array([2000 + (3 * i + 1) % (L + 1 if (L + 1) % 3 else L + 2) for i in range(L)])  # neither ascending nor descending
     if kind == 'npstr':
         return np.array([f's{i}' for i in range(L)], dtype=object) if L else np.array([], dtype=object)
     if kind == 'pdindex':
@@ -63,7 +67,7 @@ def label_of(kind, span, L, lab):
         if kind == 'pdperiodQ' and L >= 2:
             return '2000', True  # a year in a quarterly index: resolves to a slice
         return None, False
-    absent = {'range': 5, 'range0': 999, 'listfalsy': 'nope', 'listfloat': 99.25, 'liststr': 'nope', 'listmixed': ('t', 99), 'npint': 5, 'npstr': 'nope', 'pdindex': 'nope',
+    absent = {'range': 5, 'range0': 999, 'listfalsy': 'nope', 'listfloat': 99.25, 'liststr': 'nope', 'listmixed': ('t', 99), 'npint': 5, 'npdesc': 5, 'npperm': 5, 'npstr': 'nope', 'pdindex': 'nope',
               'pdperiodA': pd.Period('1990', freq='Y'), 'pdperiodQ': pd.Period('1990Q1', freq='Q'),
               'pddatetime': pd.Timestamp('1990-01-01')}[kind]
     return absent, True
